@@ -51,9 +51,8 @@ PSC::DataHolder &PointerDereferencer::resolve(PSC::Context &ctx) {
     }
 
     PSC::Pointer &ptr = ptrVar->get<PSC::Pointer>();
-    const PSC::Context *ptrCtx = ptr.getCtx();
     PSC::Context *tempCtx = &ctx;
-    while (tempCtx != ptrCtx) {
+    while (tempCtx->id != ptr.getCtxId()) {
         tempCtx = tempCtx->getParent();
         if (tempCtx == nullptr)
             throw PSC::RuntimeError(token, ctx, "Attempting to access deleted object from pointer '" + ptrVar->name + "'");
